@@ -7,6 +7,9 @@ Engines
   * correspondence (b): the same scripts -> real emit() -> g++ against the mock core -> event trace for N passes,
     projected on markers / printed values / polls / ticks / handler output / configuration events, compared with
     the model's exec (coq/Lang/Emit.v);
+  * break placement matrix (text level, no model): for every chain of header lines (if / else / elif / try / except variants /
+    for / while / nested while True) around a `break`, in the main loop and at the top level: parse() must raise ValueError iff no
+    inner loop encloses the break, and no BreakStmt of an accepted Program may sit outside every inner loop node;
   * property oracle: the temporal monitors (configured-before-use, one mode per pin, housekeeping exactly once at
     the head of every pass, no pass cut short) evaluated on the REAL traces twice - by the extracted Gallina
     predicates (cbu / one_mode / hk_ok) and by an independent Python re-implementation (they must agree) - and the
@@ -868,6 +871,8 @@ def gen_special(rng, cls, force=None):
             forms = list(force)
         for fi, form in enumerate(forms):
             v = ["step", "total", "acc", "lvl", "w_q", "Kp"][fi % 6] + (str(fi) if rng.random() < 0.5 else "")
+            if promoted and form not in ("except", "ifelse_two") and rng.random() < 0.25:
+                v = promoted[-1]          # a second block of the prologue binds the same name again
             c1, c2 = rng.randint(1, 9), rng.randint(10, 19)
             bind = ("set", v, ("const", c1)) if rng.random() < 0.6 else ("set", v, ("add", "g0", c1))
             extra = [fm()] if rng.random() < 0.5 else []
@@ -901,7 +906,8 @@ def gen_special(rng, cls, force=None):
                 continue
             elif form == "try_both":
                 pre += [("try", [bind] + extra, [("set", v, ("const", c2))])]
-            promoted.append(v)
+            if v not in promoted:
+                promoted.append(v)
             if rng.random() < 0.3:
                 pre.append(("show", mon, v))
             if rng.random() < 0.12:
@@ -1065,6 +1071,72 @@ def break_matrix(ctx, stats, thorough):
     stats["break_matrix"] = dict(dist, chains=len(chains), scripts=len(cases))
     return len(cases)
 
+
+
+# ----------------------------------------------------------------------------------------------
+# persistence templates (text level, no model): shapes outside the abstract program language whose values must carry over
+# from the prologue into the passes and from pass to pass exactly as under CPython
+# ----------------------------------------------------------------------------------------------
+PERSIST_TEMPLATES = {
+    "elif_bound": "mode = {a}\nif mode == 1:\n    step = {c1}\nelif mode == 2:\n    step = {c2}\nelse:\n    step = {c3}\n"
+                  "while True:\n    step = step + {k}\n    mon.write(step)\n",
+    "helper_reads_global": "mode = {a}\nif mode == 1:\n    step = {c1}\nelse:\n    step = {c2}\ndef show():\n    mon.write(step)\n"
+                           "while True:\n    step = step + {k}\n    show()\n",
+    "for_var_value": "for i in range({n}):\n    last = i * 2\nmon.write(last)\nwhile True:\n    last = last + {k}\n    mon.write(last)\n",
+    "while_cond": "n = {n}\nwhile n > 0:\n    n -= 1\n    acc = n + {c1}\nwhile True:\n    acc = acc + {k}\n    n = n + 1\n    mon.write(acc)\n    mon.write(n)\n",
+    "augmented": "flag = {a}\nif flag > 0:\n    total = {c1}\n    step = {k}\nelse:\n    total = {c2}\n    step = {k}\n"
+                 "while True:\n    total += step\n    step = step + 1\n    mon.write(total)\n",
+    "nested_try_in_if": "flag = {a}\nif flag > 0:\n    try:\n        lvl = {c1}\n    except:\n        lvl = {c2}\nelse:\n    lvl = {c3}\n"
+                        "while True:\n    lvl = lvl + {k}\n    mon.write(lvl)\n",
+    "helper_after_for": "for j in range({n}):\n    base = {c1}\ndef bump():\n    mon.write(base + 1)\nwhile True:\n    base = base + {k}\n    bump()\n    mon.write(base)\n",
+}
+
+
+def persistence_templates(ctx, stats, thorough):
+    rng = ctx.rng
+    cases = []
+    for name, t in PERSIST_TEMPLATES.items():
+        for _ in range(10 if thorough else 2):
+            cases.append((name, HEADER + "mon = SerialMonitor(9600)\n" + t.format(
+                a=rng.randint(0, 3), c1=rng.randint(1, 9), c2=rng.randint(10, 19), c3=rng.randint(20, 29), k=rng.randint(1, 4), n=rng.randint(1, 4))))
+    ts = fw.transpile_many([src for _, src in cases])
+    jobs, idx = [], {}
+    for i, t in enumerate(ts):
+        if t["ok"]:
+            idx[i] = len(jobs)
+            jobs.append({"cpp": t["cpp"], "input": "", "loops": NMAX})
+    outs = fw.run_sketches(jobs)
+    pys = fw.pyrun_many([{"src": src, "input": "", "loops": NMAX} for _, src in cases])
+    n_ok = 0
+    for i, ((name, src), t, po) in enumerate(zip(cases, ts, pys)):
+        if not t["ok"]:
+            ctx.disagree(f"persistence template {name}: parse()/emit() rejected the script", src, "accepted", t.get("exc"))
+            continue
+        o = outs[idx[i]]
+        if not o["compiled"] or o["rc"] != 0:
+            ctx.disagree(f"persistence template {name}: the sketch did not compile / run under the mock", src, None, (o["compile_log"] or o["stderr"])[-400:])
+            continue
+        if po["exc"] is not None:
+            ctx.disagree(f"persistence template {name}: CPython raised (template bug)", src, None, po["exc"])
+            continue
+        f_obs, p_obs = _generic_obs(o["events"], False), _generic_obs(po["events"], True)
+        if f_obs != p_obs:
+            ctx.fail(f"firmware and CPython differ on the printed values (template {name}: a name bound inside a block of the prologue, N passes = {NMAX}, every prefix compared)",
+                     {"src": src, "input": ""}, {"cpython": p_obs}, {"firmware": f_obs}, key="trace-vs-python")
+        else:
+            n_ok += 1
+    stats["persistence_templates"] = {"scripts": len(cases), "same_as_cpython": n_ok, "templates": sorted(PERSIST_TEMPLATES)}
+    return len(cases)
+
+
+
+def stmt_kind_count(progs):
+    out = {}
+    for p in progs:
+        for st in all_stmts(p):
+            k = st[0] + ("_else" if st[0] == "if" and len(st) > 3 and st[3] else "")
+            out[k] = out.get(k, 0) + 1
+    return out
 
 
 def input_script(prog):
@@ -1645,6 +1717,8 @@ def check_batch(ctx, progs, stats, known_mode=False):
             inside = g["transl_ok"] and g["vars_ok"] and g["one_main_last"]
             if inside and not g["vars_persist"]:
                 stats["inside_with_loop_locals"] = stats.get("inside_with_loop_locals", 0) + 1
+            if inside and p.get("promoted"):
+                stats["inside_with_block_bound_names"] = stats.get("inside_with_block_bound_names", 0) + 1
             if po["exc"] is not None:
                 stats["py_exc"] += 1
                 if inside and not known_mode:
@@ -1845,6 +1919,7 @@ def run(ctx: C.Ctx):
         records += check_batch(ctx, progs[i:i + 100], stats)
 
     n_matrix = break_matrix(ctx, stats, thorough)
+    n_matrix += persistence_templates(ctx, stats, thorough)
 
     # ---- N really is a prefix: run a few sketches with N = 0, 1, 2 and compare with the N = 3 trace
     prefix_checked = 0
@@ -1896,7 +1971,7 @@ def run(ctx: C.Ctx):
     ctx.coverage.update({
         "evaluations": len(progs) + stats["monitor_runs"] + prefix_checked + n_matrix,
         "distinct_nontrivial": len({p["src"] for p in progs if any(it[0] == "main" for it in p["items"]) or p["cls"] == "nomain"}),
-        "rule": "seeded structured scripts (classes below); every script goes through real parse() (IR compared node by node with the model), real emit() + g++ + mock core for 3 passes (trace compared with the model's exec; extracted and Python monitors on the real trace; markers/values compared with CPython for every N in 0..3 by prefix, the prefix property itself checked on a sample). non-trivial = distinct script text.",
+        "rule": "seeded structured scripts (classes below; nested blocks are if / if-else / for / while / try-except; classes prom_*: names first bound inside an if / else / for / while / try / except block of the prologue and re-assigned by plain assignments in `while True:`; brk_*: `break` behind every chain of if / else / try / except lines up to depth 2 (3 in the thorough tier), with and without an inner for / while; plus the text-level break placement matrix incl. elif / typed and multiple handlers / nested `while True:`); every script goes through real parse() (IR compared node by node with the model), real emit() + g++ + mock core for 3 passes (trace compared with the model's exec; extracted and Python monitors on the real trace; markers/values compared with CPython for every N in 0..3 by prefix, the prefix property itself checked on a sample). non-trivial = distinct script text.",
         "samples": [progs[1]["src"], progs[4]["src"]],
         "distribution": {"classes": cls_count, "parse_verdicts": stats["verdicts"], "ir_nodes_compared": stats["ir_nodes"],
                          "sketches_run": stats["sketches"], "sketches_not_compiled": stats["not_compiled"],
@@ -1908,6 +1983,11 @@ def run(ctx: C.Ctx):
                          "cpython_exceptions": stats["py_exc"], "prefix_runs": prefix_checked,
                          "motor_pins_checked_for_safe_stop": stats.get("motor_pins_checked", 0),
                          "compared_with_cpython_having_loop_locals": stats.get("inside_with_loop_locals", 0),
+                         "compared_with_cpython_having_names_bound_inside_prologue_blocks": stats.get("inside_with_block_bound_names", 0),
+                         "scripts_that_must_be_rejected_for_a_break": stats.get("must_reject", 0),
+                         "break_placement_matrix": stats.get("break_matrix", {}),
+                         "persistence_templates": stats.get("persistence_templates", {}),
+                         "statement_kinds": stmt_kind_count(progs),
                          "scripts_with_comments": sum(1 for p in progs if p.get("comments", (0, 0)) != (0, 0)),
                          "main_loop_headers_with_trailing_comment": sum(p.get("comments", (0, 0))[0] for p in progs),
                          "comment_only_lines": sum(p.get("comments", (0, 0))[1] for p in progs),
@@ -1924,7 +2004,10 @@ def run(ctx: C.Ctx):
                        "the order in which the emitted ButtonPoll stores __redu_button_value_<b> and calls the on_click handler (changed by /repo 97f26e6) is not observable in this model's event vocabulary (is_pressed() reads a cached sample and is no pin access; generated handlers only print markers): that clause is C15's",
                        "the value a DCMotor is stopped with / a Servo is first written with (the model has 'a write'; the harness checks on the real trace that the first write on every motor pin is a 0-write inside setup())",
                        "names promoted out of a block inside setup() below depth 0 are re-initialised at the head of the block on every execution of it (modelled; outside vars_ok; a C01 matter, not a clause of C05)",
-                       "top-level `while <cond>:` and nested `while` loops, `try`, `elif/else`, functions other than marker-only button handlers",
+                       "`elif` chains, several `except` clauses, typed handlers (`except E as e:`), a nested `while True:`: not in the Gallina model; they are in the text-level break placement matrix (parse() verdict and BreakStmt placement in the real Program for every chain of header lines up to depth 2, depth 3 sampled / exhaustive in the thorough tier)",
+                       "`except` handlers never run (nothing in the generated fragment raises, in CPython as in C++): the model has them for the break guard, for promotion and for the IR only; exception semantics themselves are outside C05",
+                       "a nested `while x:` is modelled with 64 iterations of fuel (a run that needs more sets the outside-the-model flag; generated loops count down from <= 3)",
+                       "`continue` (C01/C07), functions other than marker-only button handlers, functions reading globals",
                        "LCD / Buzzer / SerialMonitor declared inside `while True:` (not hoisted kinds; outside the quantifier)",
                        "expression layer (C01-C03): only int literals and `x + literal` are used", "timing: animations use speed_ms=0 so that every tick is observable",
                        "order of several names promoted out of one block (set iteration order, C10): generated blocks introduce at most one name"],
